@@ -295,6 +295,66 @@ def orbit_invariant(b):
     # the stellar distance of the tidal host is its semi-major axis about the star (public wrapper; also reached through world.stellar_distance = d)
     check("set_stellar_distance[host;stellar]", "set_stellar_distance", "distance", False, "host", True, stellar_kw=False)
     check("set_stellar_distance[instance;stellar]", "set_stellar_distance", "distance", False, "instance", True, stellar_kw=False)
+    # what the orbit REPORTS: every getter returns the stored value of the slot that the setters write for the same signature (index, instance, name,
+    # host instance = the host's tide raiser; for_stellar_orbit = the host's slot 0), and reading changes nothing
+    def check_getter(method, field, addressing, stellar):
+        o, old, worlds, star = mk_orbit(False)
+        sig = {"index": sp.Integer(1), "instance": worlds[1], "host": worlds[0], "name": "w1"}[addressing]
+        slot = 0 if stellar else {"index": 1, "instance": 1, "host": 2, "name": 1}[addressing]
+        c, node = cls.lookup("methods", method)
+        if node is None:
+            b.subset_exits.append(f"{FO}::OrbitBase.{method}: method not found")
+            return
+        mfn = MethodFn(c, node)
+        b.functions[mfn.key] = mfn.info()
+        ex = Exec(mfn, pre=pre, contracts=contracts, globals_env=genv, opts=dict(max_recursion=3))
+        env = dict(self=o, world_signature=sig)
+        if stellar:
+            env["for_stellar_orbit"] = True
+        try:
+            paths = ex.run(env)
+        except SymExError as e:
+            b.subset_exits.append(f"{mfn.key} ({addressing}{';stellar' if stellar else ''}): {e}")
+            return
+        b.absorb_exec(ex)
+        tag = f"{mfn.key}::{method}[{addressing}{';stellar' if stellar else ''}]"
+        if len(paths) != 1 or paths[0].outcome != "return":
+            b.add(Obligation(oid=tag + "::noraise", fn=mfn.key, clause="getter returns for a valid signature", goal=sp.false if len(paths) == 1 else sp.true, hyps=pre + paths[0].hyps, meta=dict(outcomes=str([p_.outcome for p_ in paths]))))
+            return
+        want = old[field][slot]
+        b.add(Obligation(oid=tag + "::reports_slot", fn=mfn.key, clause="ensures the getter returns the stored value of the slot the setters write for this signature", goal=sp.Eq(sp.sympify(paths[0].value), want), hyps=pre + paths[0].hyps,
+                         meta=dict(returned=str(paths[0].value), slot=slot)))
+        A, N, P = o._attrs["_semi_major_axes"], o._attrs["_orbital_frequencies"], o._attrs["_orbital_periods"]
+        ground(b, tag + "::pure", mfn.key, "frame: reading does not change a, n, P", all(X[j] == old[k][j] for X, k in ((A, "a"), (N, "n"), (P, "P")) for j in range(3)))
+    for method, field in (("get_semi_major_axis", "a"), ("get_orbital_frequency", "n"), ("get_orbital_period", "P")):
+        for addressing in ("index", "instance", "host", "name"):
+            check_getter(method, field, addressing, False)
+        check_getter(method, field, "host", True)
+    # an eccentricity update is not an update of a, n or P: it leaves all of them as they were (so Kepler III keeps holding)
+    for addressing, stellar in (("index", False), ("instance", False), ("host", False), ("host", True)):
+        o, old, worlds, star = mk_orbit(False)
+        sig = {"index": sp.Integer(1), "instance": worlds[1], "host": worlds[0]}[addressing]
+        c, node = cls.lookup("methods", "set_eccentricity")
+        if node is None:
+            break
+        mfn = MethodFn(c, node)
+        b.functions[mfn.key] = mfn.info()
+        ex = Exec(mfn, pre=pre, contracts=contracts, globals_env=genv, opts=dict(max_recursion=3))
+        env = dict(self=o, world_signature=sig, eccentricity=R("e_new"))
+        if stellar:
+            env["set_stellar_orbit"] = True
+        try:
+            paths = ex.run(env)
+        except SymExError as e:
+            b.subset_exits.append(f"{mfn.key} ({addressing}): {e}")
+            continue
+        b.absorb_exec(ex)
+        if len(paths) != 1 or paths[0].outcome != "return":
+            b.subset_exits.append(f"{mfn.key} ({addressing}): {[p_.outcome for p_ in paths]}")
+            continue
+        A, N, P = o._attrs["_semi_major_axes"], o._attrs["_orbital_frequencies"], o._attrs["_orbital_periods"]
+        ground(b, f"{mfn.key}::set_eccentricity[{addressing}{';stellar' if stellar else ''}]::frame", mfn.key, "frame: an eccentricity update leaves a, n, P of every slot unchanged",
+               all(X[j] == old[k][j] for X, k in ((A, "a"), (N, "n"), (P, "P")) for j in range(3)))
     # frame assumption on orbit_changed: it must not store into the orbital arrays
     for cname, rel in (("OrbitBase", FO), ("PhysicsOrbit", "TidalPy/structures/orbit/physics.py")):
         cm = ClassModel(cname, rel)
@@ -422,9 +482,37 @@ result = out
 '''
 
 
+_GETTER_REPLAY = r'''
+import numpy as np, math, logging, warnings
+warnings.filterwarnings('ignore')
+from TidalPy.structures import build_world
+from TidalPy.structures.orbit import PhysicsOrbit
+logging.disable(logging.CRITICAL)
+star = build_world("55cnc"); host = build_world("earth_simple"); m1 = build_world("io_simple"); m2 = build_world("triton_simple")
+orbit = PhysicsOrbit(star, tidal_host=host, tidal_bodies=[m1, m2], host_tide_raiser=m2)
+orbit.set_state(m1, orbital_period=1.77, eccentricity=0.01); orbit.set_state(m2, orbital_period=5.9, eccentricity=0.02)
+orbit.set_semi_major_axis(host, 1.5e11, set_stellar_orbit=True)
+objs = orbit.tidal_objects
+bad = []
+f = lambda x: float(np.asarray(x).ravel()[0])
+before = [[None if v is None else f(v) for v in arr] for arr in (orbit.semi_major_axes, orbit.orbital_frequencies, orbit.orbital_periods)]
+for getter, arr in (("get_semi_major_axis", orbit.semi_major_axes), ("get_orbital_frequency", orbit.orbital_frequencies), ("get_orbital_period", orbit.orbital_periods)):
+    for sig, slot, kw in ((1, 1, {}), (m1, objs.index(m1), {}), (m1.name, objs.index(m1), {}), (m2, objs.index(m2), {}), (host, objs.index(m2), {}), (host, 0, {"for_stellar_orbit": True})):
+        got = f(getattr(orbit, getter)(sig, **kw))
+        if got != f(arr[slot]): bad.append([getter, str(sig)[:30], slot, got, f(arr[slot])])
+orbit.set_eccentricity(m1, 0.3)
+after = [[None if v is None else f(v) for v in arr] for arr in (orbit.semi_major_axes, orbit.orbital_frequencies, orbit.orbital_periods)]
+if before != after: bad.append(["set_eccentricity changed a / n / P", before, after])
+result = bad
+'''
+
+
 def _replay_orbit(ob, res):
     import re
     from tpv import native
+    if "::get_" in ob.oid or "::set_eccentricity[" in ob.oid:
+        out = native.run(dict(code=_GETTER_REPLAY), timeout=900)
+        return dict(replayed=True, native=out, confirmed=bool(out.get("result")) or "exception" in out, what="every getter against the stored arrays for six signatures; a, n, P before / after set_eccentricity")
     if "::bounded:" in ob.oid:
         return dict(replayed=True, confirmed=True, what="the failing history was found by the native run itself", model=res.get("model"))
     m = re.search(r"::(set_\w+?)(?::(\w+))?\[(\w+)(;stellar)?\]:sync=", ob.oid)
